@@ -24,6 +24,24 @@ CLAIMED = {
         'Partial for the compressed reader: mtscomp thread pool, cache and decompression are runtime and only '
         'exercised; the model covers the interval arithmetic of the iterator.' + NOTE_COMMON,
         TECH, 'DESIGN.md §8 C16'),
+    'C04': (
+        'Theorems (coq/theories/C04/Props.v, all closed under the global context, each for every rounding/inverse oracle): '
+        'C04_priority, C04_priority_none (an attribute is fed by the first existing name of its documented priority list), '
+        'C04_rejects (non-monotonic spike times => load = Rejected), C04_loaded_times_sorted, C04_times_ks (times[i] = '
+        'samples[i]/rate), C04_times_alf (stored seconds; samples = stored samples or round-half-even(times*rate) as uint64), '
+        'C04_attributes (every listed attribute = squeeze/scrub of its source file, or the documented default), C04_scrub, '
+        'C04_spike_attributes, C04_frame (files created = exactly the spike-cluster copy and the inverse whitening matrix, each '
+        'only when missing), C04_traces (row i = raw row i with the channel map\'s columns). The loader\'s specification is a list '
+        'of file->attribute rules, so these are decision/frame theorems about a faithful executable model of _load_data; the '
+        'weight is on the correspondence: generated directories over the option product (KS/ALF names, label, (n,1) vectors, '
+        'each optional file present/absent, both naming conventions present, dtypes, raw wider than the channel map, NaN/inf, '
+        'all-NaN templates, fractional ALF times, extra attributes, non-monotonic times), every attribute compared exactly '
+        '(dtype, shape, values), directory listing and SHA-256 of every file before/after, wm*wmi = I judged in exact arithmetic.',
+        'Regime: no axis of length 1 other than the (n,1) vector layout (phylib squeezes every array, so 1-spike / 1-template '
+        'datasets are outside what the loader supports), at most one file per glob pattern, distinct positions. Features / '
+        'template features are C06\'s, metadata C10\'s. PrimFloat is used only in the comparator (one division / one product per '
+        'spike), never in a theorem.' + NOTE_COMMON,
+        TECH, 'DESIGN.md §8 C04'),
 }
 
 NOT_YET = 'not claimed yet: model/theorems/correspondence for this property are still being built (DESIGN.md §10); it is applicable'
